@@ -594,7 +594,7 @@ def _step_rule(chk, prog):
                     if e.k == "bin" and e.op == "&" and e.kids[1].v is not None:
                         e = strip_casts(e.kids[0])
                     if is_ref(e) and e.name in ps and e.d.get("d") == "parm" and (e.t or "").replace("const ", "") in INT_T and (
-                            any(m in LIMITS for m in o.macro_names()) or (o.v == 0 and x.op == "==")):
+                            any(m in LIMITS for m in o.macro_names()) or (o.v == 0 and x.op in ("==", "<=") and side is x.kids[0])):
                         (seeds if any(m in LIMITS for m in o.macro_names()) else zero_tested).add((fn.name, e.name))
         for c in fn.nodes:
             if c.k != "call" or c.callee not in funcs:
